@@ -42,6 +42,15 @@ M18 = {
     "own-default": (sub(INIT, "\trootConf.Packages = map", "\tif len(moduleName) > 20 {\n\t\trootConf.Formatter = addr(\"gofmt\")\n\t}\n\trootConf.Packages = map"), 1),
     "loader-default-diverges": (sub(CONF, "\tk, err := NewDefaultKoanf(ctx)\n\tif err != nil {\n\t\treturn nil, nil, err\n\t}\n\tvar rootConfig",
                                     "\tk, err := NewDefaultKoanf(ctx)\n\tif err != nil {\n\t\treturn nil, nil, err\n\t}\n\t_ = k.Set(\"force-file-write\", true)\n\tvar rootConfig"), 0),
+    # ---- hardening round (self-directed)
+    "loglevel-flag-leaks": (sub(INIT, "\trootConf.Packages = map", "\tif lv, lerr := params.GetString(\"log-level\"); lerr == nil && lv != \"\" {\n\t\trootConf.LogLevel = &lv\n\t}\n\trootConf.Packages = map"), 1),
+    "find-config-cwd-only": (sub("internal/config/config.go", "\t\tcurrentPath = currentPath.Parent()\n", "\t\tbreak\n"), 1),
+    "pipe-opened-for-writing": (sub(INIT, "\tf, err := outFile.OpenFile(os.O_RDWR | os.O_CREATE | os.O_EXCL)\n",
+                                    "\tflags := os.O_RDWR | os.O_CREATE | os.O_EXCL\n\tif st, serr := os.Lstat(filename); serr == nil && st.Mode()&os.ModeNamedPipe != 0 {\n\t\tflags = os.O_WRONLY\n\t}\n\tf, err := outFile.OpenFile(flags)\n"), 1),
+    "args-checked-after-create": (multi(sub(INIT, "\t\tArgs:  cobra.ExactArgs(1),\n", "\t\tArgs:  cobra.ArbitraryArgs,\n"),
+                                        sub(INIT, "\tmoduleName := args[0]\n", "\tmoduleName := \"\"\n\tif len(args) > 0 {\n\t\tmoduleName = args[0]\n\t}\n"),
+                                        sub(INIT, "\tdefer f.Close()\n", "\tdefer f.Close()\n\tif len(args) != 1 {\n\t\tlog.Error().Msg(\"init takes exactly one package\")\n\t\tos.Exit(1)\n\t}\n")), 1),
+    "schema-word-package-dropped": (sub(INIT, "\trootConf.Packages = map", "\tif moduleName == \"packages\" || moduleName == \"config\" {\n\t\tmoduleName = \"./\" + moduleName\n\t}\n\trootConf.Packages = map"), 1),
     "env-leaks-into-written-defaults": (sub(INIT, "\trootConf.Packages = map", "\tif v := os.Getenv(\"MOCKERY_LOG_LEVEL\"); v != \"\" {\n\t\trootConf.LogLevel = &v\n\t}\n\trootConf.Packages = map"), 1),
     # explicit Lstat check followed by a non-exclusive create: sequentially equivalent, but two concurrent
     # inits both succeed (check-then-act race) -- caught only by the concurrent histories
@@ -79,6 +88,14 @@ M19 = {
     # lenient decoding is not forbidden by the statement (only "never crashes on a decodable v2 file")
     "legit-accepts-unknown-keys": (sub(MIG, "\tdecoder.KnownFields(true)\n", "\tdecoder.KnownFields(false)\n"), 0),
     "lowercase-iface-names": (sub(MIG, "v3PkgConfig.Interfaces[interfaceName] = &v3InterfaceConfig", "v3PkgConfig.Interfaces[strings.TrimSpace(interfaceName)] = &v3InterfaceConfig"), 1),
+    # ---- hardening round (self-directed)
+    "reject-aliases": (multi(sub(MIG, "\tdecoder := yaml.NewDecoder(f)\n", "\tif raw, rerr := confPath.ReadFile(); rerr == nil {\n\t\tvar probe yaml.Node\n\t\tif yaml.Unmarshal(raw, &probe) == nil && hasAlias(&probe) {\n\t\t\treturn fmt.Errorf(\"YAML aliases are not supported\")\n\t\t}\n\t}\n\tdecoder := yaml.NewDecoder(f)\n"),
+                             sub(MIG, "type V2RootConfig struct {", "func hasAlias(n *yaml.Node) bool {\n\tif n.Kind == yaml.AliasNode {\n\t\treturn true\n\t}\n\tfor _, c := range n.Content {\n\t\tif hasAlias(c) {\n\t\t\treturn true\n\t\t}\n\t}\n\treturn false\n}\n\ntype V2RootConfig struct {")), 1),
+    "yaml11-booleans-refused": (multi(sub(MIG, "\tdecoder := yaml.NewDecoder(f)\n", "\tif raw, rerr := confPath.ReadFile(); rerr == nil {\n\t\tvar probe yaml.Node\n\t\tif yaml.Unmarshal(raw, &probe) == nil && hasOldBool(&probe) {\n\t\t\treturn fmt.Errorf(\"ambiguous boolean, write true or false\")\n\t\t}\n\t}\n\tdecoder := yaml.NewDecoder(f)\n"),
+                             sub(MIG, "type V2RootConfig struct {", "func hasOldBool(n *yaml.Node) bool {\n\tif n.Kind == yaml.ScalarNode && n.Style == 0 {\n\t\tswitch strings.ToLower(n.Value) {\n\t\tcase \"yes\", \"no\", \"on\", \"off\":\n\t\t\treturn true\n\t\t}\n\t}\n\tfor _, c := range n.Content {\n\t\tif hasOldBool(c) {\n\t\t\treturn true\n\t\t}\n\t}\n\treturn false\n}\n\ntype V2RootConfig struct {")), 1),
+    "numeric-mockname-dropped": (multi(sub(MIG, "\tv3.StructName = v2Config.MockName\n", "\tif v2Config.MockName != nil {\n\t\tif _, perr := strconv.ParseFloat(*v2Config.MockName, 64); perr != nil {\n\t\t\tv3.StructName = v2Config.MockName\n\t\t}\n\t}\n"),
+                                       sub(MIG, '\t"reflect"\n', '\t"reflect"\n\t"strconv"\n')), 1),
+    "outfile-same-as-input-refused": (sub(MIG, "\toutFile := pathlib.NewPath(v3ConfPath)\n", "\toutFile := pathlib.NewPath(v3ConfPath)\n\tif outFile.String() == confPath.String() {\n\t\treturn fmt.Errorf(\"--outfile names the v2 config itself\")\n\t}\n"), 0),
     "clean-dir": (multi(sub(MIG, "\tv3.Dir = v2Config.Dir\n", "\tif v2Config.Dir != nil {\n\t\tv3.Dir = addr(filepath.Clean(*v2Config.Dir))\n\t}\n"),
                         sub(MIG, '\t"os"\n', '\t"os"\n\t"path/filepath"\n')), 1),
     "lowercase-outpkg": (sub(MIG, "\tv3.PkgName = v2Config.Outpkg\n", "\tif v2Config.Outpkg != nil {\n\t\tv3.PkgName = addr(strings.ToLower(*v2Config.Outpkg))\n\t}\n"), 1),
